@@ -130,13 +130,29 @@ FULL_PIPES = [
     # the same structures with the slicer kinds rotated, so that every kind sits on a conditioning dimension
     (2, [None, 0], ["Weibull", "LogNormal"]),
     (3, [None, 0, 1], ["Weibull", "LogNormal", "Normal"]),
+    # fitted through the public wrapper TransformedModel.fit (identity transformation)
+    (2, [None, 0], ["Weibull", "LogNormal"]),
 ]
 FULL_VARIANT = {11: 2, 12: 1}  # index in FULL_PIPES -> rotation of (width, number, points) over the dimensions
+FULL_VIA_TRANSFORMED = {13}
 
 
 def full_pipe(bi):
     n, cond, carriers = FULL_PIPES[bi]
-    return base_pipeline(n, cond, carriers, "full", FULL_VARIANT.get(bi, 0))
+    pipe = base_pipeline(n, cond, carriers, "full", FULL_VARIANT.get(bi, 0))
+    if bi in FULL_VIA_TRANSFORMED:
+        pipe["via_transformed"] = True
+    return pipe
+
+
+def _fit_entry(pipe, model):
+    """the callable that fits the pipeline's model: the model's own fit, or the forwarding fit of a
+    TransformedModel around it"""
+    if not pipe.get("via_transformed"):
+        return model.fit
+    from virocon import TransformedModel
+
+    return TransformedModel(model, lambda x: x, lambda x: x, lambda x: np.ones(len(x))).fit
 
 
 # --------------------------------------------------------------------------
@@ -457,7 +473,7 @@ def run_sequence(pipe, faults):
         prev_fd = fd
         try:
             with seams.OptimiserShim(fail_at=shim_fail):
-                model.fit(D, fd)
+                _fit_entry(pipe, model)(D, fd)
             raised.append(False)
             last_exc = None
         except Exception as e:  # noqa: BLE001
@@ -688,7 +704,7 @@ def run_pipeline(pipe, faults, run=None):
             fit_desc = []
         if has("fitdesc-empty-tuple"):
             fit_desc = ()
-        model.fit(data, fit_desc)
+        _fit_entry(pipe, model)(data, fit_desc)
         stage = 2
         # ---------------- S3: evaluation ----------------------------------------------------------------
         pts = np.array(pipe["points"], dtype=float)
